@@ -313,6 +313,9 @@ func cmdSelftest() int {
 	if !simpFuzz(60000, 1) {
 		return 2
 	}
+	if !printerFuzz(400, 7) {
+		return 2
+	}
 	fmt.Println("selftest ok")
 	return 0
 }
